@@ -1832,3 +1832,16 @@ def m_entry_ops(ex, a, m):
         elif op == 'or_insert_with_key': e.mp.d[e.key] = Cell(ex.call_value(a[1], [Ptr(Cell(rstr(e.key)), 'ref')]))
         else: raise Unsupported('Entry::or_default (Default of an unknown type)')
     return Ptr(e.mp.d[e.key], 'ref')
+
+@model_rx(r'^(?:core::|alloc::|std::)?slice::<impl \[.*\]>::(split_at|split_at_mut|split_first_chunk|chunks|windows)$')
+def m_slice_split(ex, a, m):
+    op = m.group(1); v = _vecof(a[0]); items = v.items
+    if op in ('split_at', 'split_at_mut'):
+        i = pyint(ex, a[1], 'split index')
+        if i > len(items): raise Panic('mid > len (split_at)')
+        return Agg('tuple', None, None, [Cell(Ptr(Cell(SliceRef(items[:i])), 'ref')), Cell(Ptr(Cell(SliceRef(items[i:])), 'ref'))])
+    n = pyint(ex, a[1])
+    if n == 0: raise Panic('chunk/window size must be non-zero')
+    if op == 'chunks': return IterV(iter([Ptr(Cell(SliceRef(items[i:i + n])), 'ref') for i in range(0, len(items), n)]))
+    if op == 'windows': return IterV(iter([Ptr(Cell(SliceRef(items[i:i + n])), 'ref') for i in range(0, max(0, len(items) - n + 1))]))
+    raise Unsupported('slice::' + op)
